@@ -3,6 +3,7 @@
   Theorems hold for option lists of ANY length and order.
 -/
 import FP.Model.Options
+import FP.Model.Eval
 namespace FP.Props.C17
 open FP FP.Model
 
@@ -222,5 +223,33 @@ theorem custom_call_checks_args (t : GoTy) (ht : t ≠ .other "any") (body : Lis
 
 example : (applyAll (initMap (.coll [])) [⟨"a", .sys 1⟩, ⟨"a", .sys 2⟩]).2 = [.existingConstant] := by decide
 example : (applyAll (initMap (.coll [])) [⟨"x", .coll [.sys 1, .coll [.bad]]⟩, ⟨"ucum", .sys 2⟩]).2 = [.unsupportedType, .existingConstant] := by decide
+
+/-! ### environment variables in the assembled evaluator (FP.Model.Eval) -/
+
+section Expr
+open FP.Model.Eval
+
+/-- a supplied variable evaluates to exactly the supplied collection (spliced in, not nested), whatever
+    the input is; an unknown one is an evaluation error -/
+theorem expr_variable (env : Env) (n : String) (input : List Val) :
+    (∀ v, env.find? (fun p => p.1 == n) = some (n, v) → eval env (.ext n) input = .ok v) ∧
+    (env.find? (fun p => p.1 == n) = none → eval env (.ext n) input = .err "constant-not-found") := by
+  refine ⟨fun v h => ?_, fun h => ?_⟩ <;> simp [eval, h]
+
+/-- `%context` is the input collection and `%ucum` the UCUM URL, for every program -/
+theorem expr_predefined (env : Env) (input : List Val) :
+    finish env input (.ok (.ext "context", false)) = .result input ∧
+    finish env input (.ok (.ext "ucum", false)) = .result [.str (utf8 "http://unitsofmeasure.org".toList)] := by
+  simp [finish, eval]
+
+/-- an unknown variable fails wherever it stands: an error in an operand is the error of the operation -/
+theorem expr_unknown_variable_propagates (env : Env) (n : String) (op : ArithOp) (r : E) (input : List Val)
+    (h : env.find? (fun p => p.1 == n) = none) :
+    eval env (.arith op (.ext n) r) input = .err "constant-not-found" ∧
+    eval env (.seq (.ext n) r) input = .err "constant-not-found" ∧
+    eval env (.eq false (.ext n) r) input = .err "constant-not-found" := by
+  simp [eval, h, Res.bind]
+
+end Expr
 
 end FP.Props.C17
